@@ -1032,12 +1032,14 @@ func vC09Janus(t *testing.T, stream string) string {
 const vC09Sessions = 3
 
 func vC09Exec(t *testing.T, c *vCase) {
-	if len(c.Ops) > 0 && strings.HasPrefix(c.Ops[0], "janus ") {
+	if len(c.Ops) > 0 && strings.HasPrefix(c.Ops[0], "janus") {
 		// not in a bubble: the Janus client uses real timers
 		for _, line := range c.Ops {
 			f := strings.Fields(line)
 			if len(f) == 2 && f[0] == "janus" && (f[1] == "video" || f[1] == "screen") {
 				c.Impl = append(c.Impl, vC09Janus(t, f[1]))
+			} else if len(f) == 2 && f[0] == "janustimeout" && (f[1] == "video" || f[1] == "screen") {
+				c.Impl = append(c.Impl, vC09JanusTimeout(t, f[1]))
 			} else {
 				c.Impl = append(c.Impl, "bad-op")
 			}
@@ -1295,7 +1297,7 @@ func vC09Gen(e *vEnv, r *vRand) []vCase {
 	}
 
 	// the assumption about the real Janus client, once per stream type
-	add([]string{"janus video", "janus screen"}, "janus")
+	add([]string{"janus video", "janus screen", "janustimeout video", "janustimeout screen"}, "janus")
 
 	// PRNG histories
 	n := e.scale(250, 15000)
